@@ -127,8 +127,23 @@ def has_escape(stmts):
 
 class FunTranslator:
     def __init__(self, fn, known_funs=(), attr_params=None, method_params=None,
-                 known_sigs=None, attr_allow=None, allow_sets=False):
+                 known_sigs=None, attr_allow=None, allow_sets=False,
+                 fun_params=None, fun_tables=None, obj_locals=None, fresh_funs=(),
+                 strict_escape=False):
         self.fn = fn
+        # function-valued names (JoinGen): fun_params are PARAMETERS of the generated definition
+        # (name -> arity, type pyval -> ... -> pyval); fun_tables maps a global dict of functions
+        # (COMP_OP_MAP) to the generated lookup `tbl : pyval -> (pyval -> pyval -> pyval) + pyval`;
+        # a local bound by `g = TABLE[e]` is a function-valued local.  Such names may only be called.
+        self.fun_params = dict(fun_params or {})
+        self.fun_tables = dict(fun_tables or {})
+        self.fun_locals = {}
+        # obj_locals: variable -> attributes held in the locals <variable>_<attribute> (an inlined
+        # object, see joins.py); it may be passed where a callee abstracted a parameter into attributes
+        self.obj_locals = dict(obj_locals or {})
+        # known functions whose result is a fresh, unshared list (checked by returns_fresh)
+        self.fresh_funs = set(fresh_funs)
+        self.strict_escape = strict_escape
         # sets (only where the generated file carries the py_set_* prelude): a name bound to
         # `set()` -- and to nothing else -- supports .add(x) / .update(iterable)
         self.allow_sets = allow_sets
@@ -198,6 +213,12 @@ class FunTranslator:
                     if sp[0] == 'plain':
                         continue
                     a = n.args[pyparams.index(sp[1])]
+                    if sp[0] == 'attr' and isinstance(a, ast.Name) and a.id in self.obj_locals and \
+                            sp[2] in self.obj_locals[a.id] and a.id not in rebound:
+                        # an inlined object: its attribute lives in the local <a>_<attr>
+                        self.abstracted_args.add(id(a))
+                        self.obj_attr_args = getattr(self, 'obj_attr_args', set()) | {id(a)}
+                        continue
                     if not (isinstance(a, ast.Name) and a.id in self.params and a.id not in rebound):
                         raise Unsupported('argument %s of %s must be a parameter' % (sp[1], n.func.id))
                     key = (a.id, sp[2])
@@ -314,8 +335,16 @@ class FunTranslator:
         args = n.args
         if isinstance(n.func, ast.Name):
             f = n.func.id
+            if f in self.fun_params or f in self.fun_locals:
+                ar = self.fun_params.get(f, self.fun_locals.get(f))
+                if len(args) != ar:
+                    raise Unsupported('arity of ' + f)
+                return '(%s %s)' % (self.v(f), ' '.join(self.expr(a) for a in args))
             if f in self.bound:
                 raise Unsupported('call of local ' + f)
+            if f == 'iteritems' and len(args) == 1 and self.strict_escape:
+                # six.iteritems(d): the (key, value) pairs in insertion order (import checked by joins.py)
+                return '(py_items %s)' % self.expr(args[0])
             if f == 'set' and not args and self.allow_sets:
                 return '(PDict [])'
             if f in BUILTIN1 and len(args) == 1:
@@ -348,6 +377,8 @@ class FunTranslator:
                     else:
                         if id(a) not in self.abstracted_args:
                             raise Unsupported('argument %s of %s' % (sp[1], f))
+                        if id(a) in getattr(self, 'obj_attr_args', ()) and (a.id + '_' + sp[2]) not in self.bound:
+                            raise Unsupported('%s.%s is not bound here' % (a.id, sp[2]))
                         out.append(self.v(a.id + '_' + sp[2]))
                 return '(%s %s)' % (f, ' '.join(out))
             if f in self.known_funs:
@@ -408,6 +439,22 @@ class FunTranslator:
             if not in_loop:
                 raise Unsupported('continue outside loop')
             return in_loop()
+        if isinstance(s, ast.Assign) and isinstance(s.value, ast.Subscript) and \
+                isinstance(s.value.value, ast.Name) and s.value.value.id in self.fun_tables and \
+                s.value.value.id not in self.bound:
+            # g = TABLE[e]: g is a function-valued local
+            if len(s.targets) != 1 or not isinstance(s.targets[0], ast.Name) or in_loop:
+                raise Unsupported('function table lookup shape')
+            g = s.targets[0].id
+            if g in self.bound or g in self.fun_locals or g in self.fun_params or \
+                    sum(1 for n in ast.walk(self.fn) if isinstance(n, ast.Name) and n.id == g and
+                        isinstance(n.ctx, ast.Store)) != 1:
+                raise Unsupported('function-valued local %s is rebound' % g)
+            key = self.expr(s.value.slice)
+            self.fun_locals[g] = 2
+            r = cont()
+            return '(match %s %s with inr x_ => %s | inl %s =>\n %s end)' % (
+                self.fun_tables[s.value.value.id], key, fail('x_'), self.v(g), r)
         if isinstance(s, ast.Assign):
             if len(s.targets) != 1:
                 raise Unsupported('multi-target assign')
@@ -491,6 +538,10 @@ class FunTranslator:
         if isinstance(s, ast.For):
             it = self.expr(s.iter)
             names = assigned_names(s.body)
+            if isinstance(s.iter, ast.Call) and isinstance(s.iter.func, ast.Name) and s.iter.func.id == 'iteritems':
+                d = s.iter.args[0]
+                if not isinstance(d, ast.Name) or d.id in names:
+                    raise Unsupported('iteritems() of a dict that changes inside the loop')
             tnames = assigned_names([ast.Assign(targets=[s.target], value=None)])
             names = [n for n in names if n not in tnames]
             tup0 = self.tuple_of(names, unbound_ok=True)
@@ -674,7 +725,12 @@ class FunTranslator:
             if isinstance(v, ast.Call) and isinstance(v.func, ast.Name) and \
                     v.func.id in ('list', 'sorted', 'range', 'xrange', 'set'):
                 return True
+            if isinstance(v, ast.Call) and isinstance(v.func, ast.Name) and v.func.id in self.fresh_funs:
+                return True
             return False
+        for p_ in self.params:
+            if self.strict_escape and p_ in mutated:
+                raise Unsupported('in-place mutation of parameter ' + p_)
         for n in ast.walk(self.fn):
             if isinstance(n, ast.Assign):
                 for t in n.targets:
@@ -689,8 +745,108 @@ class FunTranslator:
                     if isinstance(e, ast.Name) and e.id in mutated:
                         raise Unsupported('in-place mutation of loop variable ' + e.id)
 
+    def check_no_mutation_after_escape(self):
+        """Flow-sensitive companion of check_no_aliased_mutation: once the object held by a
+        mutated name x has been stored somewhere else (appended to a list, put into a display or a
+        dict, bound to another name, passed to a function), x may not be mutated again before it is
+        rebound to a fresh object -- the functional update of x would not reach the stored copy.
+        Loop bodies are analysed twice (back edge); branches are joined by union."""
+        MUT = ('append', 'insert', 'sort', 'add', 'update')
+        mutated = set()
+        for n in ast.walk(self.fn):
+            if isinstance(n, ast.Expr) and isinstance(n.value, ast.Call) and isinstance(n.value.func, ast.Attribute):
+                r = n.value.func.value
+                if isinstance(r, ast.Name) and n.value.func.attr in MUT:
+                    mutated.add(r.id)
+                if self.is_get_append(n.value):
+                    mutated.add(n.value.func.value.func.value.id)
+            if isinstance(n, (ast.Assign, ast.AugAssign)):
+                for t in (n.targets if isinstance(n, ast.Assign) else [n.target]):
+                    if isinstance(t, ast.Subscript) and isinstance(t.value, ast.Name):
+                        mutated.add(t.value.id)
+
+        def escaping(e, acc):
+            """names whose OBJECT flows out of expression e (conservative: any bare occurrence that
+            is not the receiver of a read-only operation)"""
+            if isinstance(e, ast.Name):
+                if e.id in mutated:
+                    acc.add(e.id)
+            elif isinstance(e, ast.Call):
+                if isinstance(e.func, ast.Name) and e.func.id in ('len',):
+                    return
+                if isinstance(e.func, ast.Attribute):
+                    # receiver of a method: reading through it does not store it
+                    if not isinstance(e.func.value, ast.Name):
+                        escaping(e.func.value, acc)
+                for a in e.args:
+                    escaping(a, acc)
+                for k in e.keywords:
+                    escaping(k.value, acc)
+            elif isinstance(e, ast.Subscript):
+                # x[i] reads an element; the element may itself be shared but x is not stored
+                if not isinstance(e.value, ast.Name):
+                    escaping(e.value, acc)
+                escaping(e.slice, acc)
+            elif isinstance(e, (ast.Compare, ast.BoolOp, ast.UnaryOp, ast.BinOp)):
+                for c in ast.iter_child_nodes(e):
+                    if isinstance(c, ast.expr):
+                        if isinstance(e, (ast.Compare, ast.UnaryOp)) and isinstance(c, ast.Name):
+                            continue          # comparisons / not / truth tests do not store
+                        escaping(c, acc)
+            elif isinstance(e, ast.AST):
+                for c in ast.iter_child_nodes(e):
+                    if isinstance(c, ast.expr):
+                        escaping(c, acc)
+
+        def block(ss, esc):
+            esc = set(esc)
+            for s in ss:
+                if isinstance(s, ast.Expr) and isinstance(s.value, ast.Call) and \
+                        isinstance(s.value.func, ast.Attribute) and isinstance(s.value.func.value, ast.Name) and \
+                        s.value.func.attr in MUT:
+                    x = s.value.func.value.id
+                    if x in esc:
+                        raise Unsupported('%s is mutated after it was stored elsewhere' % x)
+                    for a in s.value.args:
+                        escaping(a, esc)
+                elif isinstance(s, ast.Expr) and self.is_get_append(s.value):
+                    x = s.value.func.value.func.value.id
+                    if x in esc:
+                        raise Unsupported('%s is mutated after it was stored elsewhere' % x)
+                    for a in s.value.args:
+                        escaping(a, esc)
+                elif isinstance(s, (ast.Assign, ast.AugAssign)):
+                    tg = s.targets if isinstance(s, ast.Assign) else [s.target]
+                    escaping(s.value, esc)
+                    for t in tg:
+                        if isinstance(t, ast.Subscript) and isinstance(t.value, ast.Name) and t.value.id in esc:
+                            raise Unsupported('%s is mutated after it was stored elsewhere' % t.value.id)
+                        for e in ast.walk(t):
+                            if isinstance(e, ast.Name) and isinstance(e.ctx, ast.Store):
+                                esc.discard(e.id)      # rebound (freshness is check_no_aliased_mutation's job)
+                elif isinstance(s, ast.If):
+                    escaping(s.test, esc)
+                    esc = block(s.body, esc) | block(s.orelse, esc)
+                elif isinstance(s, ast.For):
+                    escaping(s.iter, esc)
+                    e1 = block(s.body, esc)
+                    esc = esc | e1 | block(s.body, esc | e1)
+                elif isinstance(s, ast.Return):
+                    if s.value is not None:
+                        escaping(s.value, esc)
+                elif isinstance(s, ast.Expr):
+                    escaping(s.value, esc)
+            return esc
+        block(self.fn.body, set())
+
     def translate(self):
         self.check_no_aliased_mutation()
+        if self.strict_escape:
+            self.check_no_mutation_after_escape()
+        for f_ in self.fun_params:
+            if f_ in self.params or any(isinstance(n, ast.Name) and n.id == f_ and
+                                        isinstance(n.ctx, ast.Store) for n in ast.walk(self.fn)):
+                raise Unsupported('function parameter %s is bound' % f_)
         self.bound = set(self.params)
         body = self.block(self.fn.body, lambda: 'PNone', lambda e: e, None)
         plist = []
@@ -703,6 +859,8 @@ class FunTranslator:
             plist.append(('v_%s_%s' % (p, a), 'pyval'))
         for (p, m) in self.method_params:
             plist.append(('v_%s_%s' % (p, m), 'pyval -> pyval'))
+        for f_, ar in self.fun_params.items():
+            plist.append(('v_' + f_, ' -> '.join(['pyval'] * (ar + 1))))
         self.spec = []
         for p in self.params:
             if ('v_' + p, 'pyval') in plist:
@@ -731,6 +889,48 @@ class FunTranslator:
         return v.plain
 
 
+def returns_fresh(fn):
+    """Does every call of fn return a fresh list that nothing else refers to?  Syntactic: the only
+    return is `return x` with x a local (not a parameter) that is bound only to displays /
+    constants / list()/sorted() results, and x occurs otherwise only as the receiver of
+    x.append / x.insert / x.sort, in len(x), or as a test."""
+    params = set(a.arg for a in fn.args.args)
+    rets = [n for n in ast.walk(fn) if isinstance(n, ast.Return)]
+    if len(rets) != 1 or not isinstance(rets[0].value, ast.Name):
+        return False
+    x = rets[0].value.id
+    if x in params:
+        return False
+    ok = {id(rets[0].value)}
+    for n in ast.walk(fn):
+        if isinstance(n, ast.Assign):
+            for t in n.targets:
+                for e in ast.walk(t):
+                    if isinstance(e, ast.Name) and e.id == x:
+                        if e is not t or len(n.targets) != 1:
+                            return False
+                        v = n.value
+                        if not (isinstance(v, (ast.List, ast.Dict)) or
+                                (isinstance(v, ast.Call) and isinstance(v.func, ast.Name) and
+                                 v.func.id in ('list', 'sorted'))):
+                            return False
+        if isinstance(n, (ast.AugAssign, ast.For)):
+            for e in ast.walk(n.target):
+                if isinstance(e, ast.Name) and e.id == x:
+                    return False
+        if isinstance(n, ast.Expr) and isinstance(n.value, ast.Call) and \
+                isinstance(n.value.func, ast.Attribute) and isinstance(n.value.func.value, ast.Name) and \
+                n.value.func.value.id == x and n.value.func.attr in ('append', 'insert', 'sort'):
+            ok.add(id(n.value.func.value))
+        if isinstance(n, ast.Call) and isinstance(n.func, ast.Name) and n.func.id == 'len' and \
+                len(n.args) == 1 and isinstance(n.args[0], ast.Name) and n.args[0].id == x:
+            ok.add(id(n.args[0]))
+    for n in ast.walk(fn):
+        if isinstance(n, ast.Name) and n.id == x and isinstance(n.ctx, ast.Load) and id(n) not in ok:
+            return False
+    return True
+
+
 def translate_functions(src, names, known=(), specs=None):
     """Translate the named top-level functions of module source `src` (in the given order).
     If `specs` is a dict it receives name -> (python parameters, Coq parameter spec)."""
@@ -752,15 +952,18 @@ def translate_functions(src, names, known=(), specs=None):
     return '\n'.join(out), sigs
 
 
-def translate_fundefs(fundefs, known_sigs=None, attr_allow=None, allow_sets=False):
+def translate_fundefs(fundefs, known_sigs=None, attr_allow=None, allow_sets=False, specs=None, **kw):
     """Translate already extracted ast.FunctionDef nodes (methods turned into functions).
-    attr_allow: function name -> {parameter: [attributes]}."""
+    attr_allow: function name -> {parameter: [attributes]}.  If `specs` is a dict it receives
+    name -> (python parameters, Coq parameter spec), as translate_functions does."""
     out, sigs = [], {}
     for fn in fundefs:
         fn = ast.parse(ast.unparse(fn)).body[0]       # normalise (fresh node identities)
         tr = FunTranslator(fn, known_sigs=known_sigs, attr_allow=(attr_allow or {}).get(fn.name),
-                           allow_sets=allow_sets)
+                           allow_sets=allow_sets, **kw)
         text, params = tr.translate()
         out.append(text)
         sigs[fn.name] = params
+        if specs is not None:
+            specs[fn.name] = ([a.arg for a in fn.args.args], tr.spec)
     return '\n'.join(out), sigs
